@@ -59,6 +59,7 @@ Json World::result_json() const
     j.set("vfs_calls", (long long)g_disk.lib_calls);
     j.set("clock_reads", (long long)g_clock_reads);
     j.set("sim_clock", (long long)g_sim_clock);
+    j.set("sim_span", (long long)(g_sim_clock >= clock0 ? g_sim_clock - clock0 : clock0 - g_sim_clock));
     if (!derived.empty())
     {
         Json d = Json::object();
